@@ -170,7 +170,7 @@ pub fn run_input(input: &Value) -> Case {
             ("KToMicros 0%Z (Some 1%Z)".to_string(), format!("{}-PANIC", kind))
         }
     };
-    Case { gallina, json: out, class, nontrivial: true, key: serde_json::to_string(input).unwrap() }
+    Case { gallina, json: out, class, nontrivial: true, key: serde_json::to_string(input).unwrap(), features: vec![] }
 }
 
 const I64MAX_US_NS: i128 = (i64::MAX as i128) * 1000;
